@@ -499,8 +499,19 @@ where
                 debug!("BecomeFollower");
                 self.role = self.role.become_follower()?;
 
-                // Reset vote when stepping down (new term, no vote yet)
-                self.role.state_mut().reset_voted_for()?;
+                // Reset the vote when stepping down, but only a vote of an older term (new term,
+                // no vote yet). A vote cast in the current term must survive the step-down:
+                // otherwise the node could vote a second time in the same term.
+                let current_term = self.role.current_term();
+                let vote_is_stale = self
+                    .role
+                    .state()
+                    .shared_state()
+                    .voted_for()?
+                    .is_some_and(|v| v.voted_for_term < current_term);
+                if vote_is_stale {
+                    self.role.state_mut().reset_voted_for()?;
+                }
 
                 // Notify leader change listeners
                 let current_term = self.role.current_term();
